@@ -341,8 +341,13 @@ func runTrace(fs *flag.FlagSet, prop string, seed uint64, n int, outDir, file st
 			return
 		}
 		name := fmt.Sprintf("%s/cases_%03d.v", outDir, nshard)
-		src := "From Autog Require Import Check.\nDefinition q (n : Z) (d : positive) : Q := Qmake n d.\nDefinition cases : list (nat * tcase) := [\n" +
-			shard.String() + "].\nDefinition M := Eval vm_compute in check_cases cases.\nPrint M.\n"
+		imp, extra := "Check", ""
+		if os.Getenv("VH_CERT") != "" {
+			imp = "CertCheck"
+			extra = "Definition M2 := Eval vm_compute in cert_cases cases.\nPrint M2.\n"
+		}
+		src := "From Autog Require Import " + imp + ".\nDefinition q (n : Z) (d : positive) : Q := Qmake n d.\nDefinition cases : list (nat * tcase) := [\n" +
+			shard.String() + "].\nDefinition M := Eval vm_compute in check_cases cases.\nPrint M.\n" + extra
 		os.WriteFile(name, []byte(src), 0o644)
 		nshard++
 		inShard = 0
